@@ -189,6 +189,12 @@ Definition unit_res {S} (x : hres unit) (st : S) : hres S :=
 Definition map_res {A B} (f : A -> B) (x : hres A) : hres B :=
   match x with HOob => HOob | HR r s => HR r (f s) end.
 
+(* DimmerSubDevice personalities 1 / 2 have footprints 1 / 2: a = personality, start, ... *)
+Fixpoint dsubs_of (a : list N) : list dsub :=
+  match a with p :: st :: r => (p, st) :: dsubs_of r | _ => [] end.
+Fixpoint dsubs_flat (l : list dsub) : list N :=
+  match l with [] => [] | s :: r => fst s :: snd s :: dsubs_flat r end.
+
 (* uniform entry: function number, request, numeric arguments/state, string argument/state *)
 Definition help_run (f : N) (q : request) (a : list N) (s : list N) : hres (list N * list N) :=
   let bad := HR None (a, s) in
@@ -220,6 +226,7 @@ Definition help_run (f : N) (q : request) (a : list N) (s : list N) : hres (list
   | 20, [c; cur] => let (d, off) := cfg_settings c in
                     map_res (fun v => ([c; v], s)) (setting_set q d off cur)
   | 21, [c] => let (d, off) := cfg_settings c in unit_res (setting_get_description q d off) (a, s)
+  | 24, _ => map_res (fun l => (dsubs_flat l, s)) (set_dmx_block_address q (dsubs_of a))
   | 22, [mc] => unit_res (get_test_data q mc) (a, s)
   | 23, [mc] => HR (set_test_data q mc) (a, s)
   | _, _ => bad
